@@ -13,6 +13,7 @@ import numpy as np
 
 from gsverif import common
 from gsverif.common import gs
+from gsverif.oracles import rot as orot
 
 SHARDS = {"quick": 12, "thorough": 12}
 TIMEOUT = {"quick": 1500, "thorough": 6000}
@@ -405,8 +406,8 @@ def check_wrappers(ctx, c):
         for nt in (None, 1, 3, 16):
             config.NUM_THREADS = nt
             seen.clear()
-            x = rng.uniform(0, 5, size=(2, 9))
-            m = gs.Gaussian(dim=2, len_scale=1.5)
+            x = rng.uniform(0, 8, size=(2, 9))
+            m = gs.Gaussian(dim=2, len_scale=1.5, anis=0.3, angles=0.7)
             with warnings.catch_warnings():
                 warnings.simplefilter("ignore")
                 f = gs.SRF(m, seed=1, mode_no=8)(x)
@@ -422,6 +423,14 @@ def check_wrappers(ctx, c):
                 gs.vario_estimate_axis(np.ma.array(rng.normal(size=(6, 4)), mask=rng.random((6, 4)) < 0.3))
             names = [s_[0] for s_ in seen]
             ctx.event("wrapper_calls_spied", len(seen))
+            # the generators hand the kernels their own samples and the isometrized positions, nothing else
+            xi_want = orot.isometrize(2, [0.7], [0.3], x)
+            for nm, a, kw in seen[:3]:
+                pos_arg = np.asarray(a[-2], dtype=float)
+                if pos_arg.shape != xi_want.shape or not np.allclose(pos_arg, xi_want, rtol=1e-12, atol=1e-12):
+                    ctx.fail({"what": "generator-hands-kernel-other-positions", "kernel": nm},
+                             f"{nm}: positions reaching the kernel differ from the isometrized call positions by {common.maxabs(pos_arg - xi_want) if pos_arg.shape == xi_want.shape else pos_arg.shape}")
+                    return
             want = ["summate_c", "summate_incompr_c", "summate_fourier_c", "calc_field_krige_and_variance_c", "calc_field_krige_c",
                     "unstructured_c", "directional_c", "structured_c", "ma_structured_c"]
             if names != want:
